@@ -199,7 +199,7 @@ def one_schema(c, k, seed, kind, nmsgs_rt):
     open(spath, 'w').write('\n'.join(lines) + '\n')
     e = dict(os.environ)
     e.update(SAN_ENV)
-    p = subprocess.run([res['codec_exec'], '--script', spath], stdout=subprocess.PIPE, stderr=subprocess.PIPE, cwd=gdir, env=e, timeout=600)
+    p = subprocess.run([res['codec_exec'], '--script', spath, '--case-seconds', '120'], stdout=subprocess.PIPE, stderr=subprocess.PIPE, cwd=gdir, env=e, timeout=1800)
     so, se = p.stdout.decode('latin-1'), p.stderr.decode('latin-1')
     for case, cls, key, detail in parse_sanitizer(se):
         viol.append((key + '|generated-codec', '%s: %s' % (tag, detail)))
